@@ -110,6 +110,19 @@ func (x *Exec) fireNext() {
 	vt.fire()
 }
 
+// TimerPhases returns, for every armed virtual timer, the time it still has to run, in units of step (state keys of
+// explicit-state searches: two states that differ only in how far a pending wait has progressed are different states).
+func TimerPhases(step Duration) []int64 {
+	if X == nil {
+		return nil
+	}
+	out := make([]int64, 0, len(X.timers))
+	for _, t := range X.timers {
+		out = append(out, (t.when-X.clock)/int64(step))
+	}
+	return out
+}
+
 // PendingTimers returns the number of armed virtual timers.
 func PendingTimers() int {
 	if X == nil {
